@@ -417,9 +417,11 @@ func GenHistory(seed uint64, p *Profile) *Scenario {
 							g.joined[nc] = "new"
 						}
 					}
+					byID := -1
 					if nc, ok := g.freshConn(); ok && r.Bool(0.5) {
 						g.steps = append(g.steps, Step{Conn: nc, Op: "join", Sess: victim, Block: g.nextBlk})
 						g.joined[nc] = victim
+						byID = nc
 					}
 					// ... and a member of another session switches into the dying one: refused or
 					// accepted, it must end up in exactly one session and its old session must be
@@ -434,6 +436,20 @@ func GenHistory(seed uint64, p *Profile) *Scenario {
 						sw := outsiders[r.Intn(len(outsiders))]
 						g.steps = append(g.steps, Step{Conn: sw, Op: "join", Sess: victim, Block: g.nextBlk})
 						g.joined[sw] = victim
+					}
+					if byID >= 0 && r.Bool(0.5) {
+						// wherever the join by id ended up (refused, or in a session that took over
+						// the id), what it attaches there must become part of that session's state
+						st := g.makeOp(byID, "entity_add")
+						st.NoPose = false
+						g.steps = append(g.steps, st)
+						for _, op := range []string{"action", "asset_add", "quad_sample"} {
+							if r.Bool(0.6) {
+								st := g.makeOp(byID, op)
+								st.Ent = Ref{K: "own"}
+								g.steps = append(g.steps, st)
+							}
+						}
 					}
 					continue
 				}
